@@ -34,6 +34,9 @@ type Target struct {
 	// around the only call `<x>.Set(ctx, key, value, ttl)` inside it and the ttl argument of that call.
 	// Site "get": the condition of the innermost `if` around the only call `<x>.Get(ctx, key)` inside it.
 	Site string
+	// Scan: the function maps a string to a string by one index loop over it (scan.go); the parameter (a `List Int`,
+	// one element per byte) that stands for the string
+	Scan string
 }
 
 // Family groups the targets of one receiver type; they share parameters and atoms.
@@ -77,6 +80,7 @@ type Def struct {
 	Fam     *Family
 	ResType string     // families with effects: Lean type of the result
 	Loops   []*LoopDef // families with effects: the loops of the function, in the order they have to be defined
+	Scans   []*ScanDef // scan functions: the index loop over the string
 }
 
 const maxInline = 8
@@ -88,6 +92,8 @@ const (
 	bConst                  // a constant expression, inlined
 	bAlias                  // a name for (a part of) an object: replaced by the canonical expression
 	bOpaque                 // something the translation does not look into (a logger); any use as a value fails
+	bString                 // the string a scan function works on (scan.go)
+	bAcc                    // the accumulator (strings.Builder, []byte) the scan function writes its result to
 )
 
 type binding struct {
@@ -99,6 +105,7 @@ type binding struct {
 	node  *Node
 	alias ast.Expr
 	depth int
+	lit0  bool // a variable that holds the literal 0 since its declaration
 }
 
 type frame struct {
@@ -117,6 +124,11 @@ type env struct {
 	fr    *frame
 	brk   cont // inside a loop: what `break` / `continue` lead to
 	cnt   cont
+
+	// inside an index loop over a string (scan.go): the Go name of the index variable and by how much the body has
+	// advanced it so far
+	scanIdx string
+	scanOff int
 }
 
 // withName reserves a Lean name that is bound around this point without standing for a Go variable
@@ -128,7 +140,7 @@ func (e *env) withName(lean string) *env {
 
 	names[lean] = true
 
-	return &env{m: e.m, names: names, depth: e.depth, fr: e.fr, brk: e.brk, cnt: e.cnt}
+	return &env{m: e.m, names: names, depth: e.depth, fr: e.fr, brk: e.brk, cnt: e.cnt, scanIdx: e.scanIdx, scanOff: e.scanOff}
 }
 
 func (e *env) with(name string, b binding) *env {
@@ -149,11 +161,11 @@ func (e *env) with(name string, b binding) *env {
 		names[b.lean] = true
 	}
 
-	return &env{m: m, names: names, depth: e.depth, fr: e.fr, brk: e.brk, cnt: e.cnt}
+	return &env{m: m, names: names, depth: e.depth, fr: e.fr, brk: e.brk, cnt: e.cnt, scanIdx: e.scanIdx, scanOff: e.scanOff}
 }
 
 func (e *env) push() *env {
-	return &env{m: e.m, names: e.names, depth: e.depth + 1, fr: e.fr, brk: e.brk, cnt: e.cnt}
+	return &env{m: e.m, names: e.names, depth: e.depth + 1, fr: e.fr, brk: e.brk, cnt: e.cnt, scanIdx: e.scanIdx, scanOff: e.scanOff}
 }
 
 // leave drops what was declared inside a block (depth >= d) and keeps assignments to outer variables
@@ -173,7 +185,8 @@ func (e *env) leave(entry *env) *env {
 	}
 
 	// the Lean names bound inside the block may be used again: what they stood for is out of scope in Go
-	return &env{m: m, names: entry.names, depth: entry.depth, fr: entry.fr, brk: e.brk, cnt: e.cnt}
+	return &env{m: m, names: entry.names, depth: entry.depth, fr: entry.fr, brk: e.brk, cnt: e.cnt,
+		scanIdx: e.scanIdx, scanOff: e.scanOff}
 }
 
 type tr struct {
@@ -185,6 +198,8 @@ type tr struct {
 	stack    []string
 	recvType string
 
+	scan       *scanInfo
+	scans      []*ScanDef
 	lastRet    TypeSpec // result type found by the last call of resultType
 	eff        bool
 	defName    string
@@ -418,6 +433,10 @@ func (t *tr) target(tg *Target) (*Def, error) {
 		return t.callSite(d, fd, en)
 	}
 
+	if tg.Scan != "" {
+		return t.scanTarget(d, fd, en)
+	}
+
 	if t.eff {
 		if fd.Type.Results == nil {
 			return nil, t.pkg.errorf(fd.Pos(), "%s returns nothing", goName)
@@ -593,6 +612,12 @@ func (t *tr) stmts(list []ast.Stmt, en *env, k cont, end token.Pos) (*Node, erro
 
 	if t.mutation(list[0], en) {
 		return rest(en)
+	}
+
+	if t.scan != nil {
+		if n, handled, err := t.scanStmt(list[0], en, rest); handled {
+			return n, err
+		}
 	}
 
 	switch s := list[0].(type) {
@@ -807,7 +832,7 @@ func (t *tr) bindLet(name string, n *Node, en *env, define bool, k cont) (*Node,
 		n = retag(n, UPlain) // `x := 10` is an int
 	}
 
-	b := binding{kind: bScalar, k: n.K, u: n.U, t: n.T, depth: en.depth}
+	b := binding{kind: bScalar, k: n.K, u: n.U, t: n.T, depth: en.depth, lit0: define && n.IsZeroConst()}
 
 	if old, ok := en.m[name]; ok && !define {
 		b.lean, b.depth = old.lean, old.depth
@@ -835,9 +860,56 @@ func (t *tr) assign(s *ast.AssignStmt, en *env, rest cont) (*Node, error) {
 		}
 	}
 
+	if s.Tok == token.DEFINE && len(s.Lhs) == len(s.Rhs) && len(s.Lhs) > 1 {
+		// a, b := x, y: all values first, then the variables
+		vals := make([]*Node, len(s.Rhs))
+
+		for i, r := range s.Rhs {
+			v, err := t.expr(r, en)
+			if err != nil {
+				return nil, err
+			}
+
+			vals[i] = v
+		}
+
+		var step func(i int, e2 *env) (*Node, error)
+
+		step = func(i int, e2 *env) (*Node, error) {
+			if i == len(vals) {
+				return rest(e2)
+			}
+
+			id, ok := s.Lhs[i].(*ast.Ident)
+			if !ok {
+				return nil, t.pkg.errorf(s.Pos(), "assignment to `%s` is not supported", Text(s.Lhs[i]))
+			}
+
+			return t.bindLet(id.Name, vals[i], e2, true, func(e3 *env) (*Node, error) { return step(i+1, e3) })
+		}
+
+		return step(0, en)
+	}
+
 	if len(s.Lhs) != 1 || len(s.Rhs) != 1 {
 		return nil, t.pkg.errorf(s.Pos(), "assignment of several values is not supported (except the results of a call "+
 			"the table knows)")
+	}
+
+	if id0, ok := s.Lhs[0].(*ast.Ident); ok && en.scanIdx != "" && id0.Name == en.scanIdx {
+		k, err := t.scanAdvance(s)
+		if err != nil {
+			return nil, err
+		}
+
+		inner := rest
+		rest = func(e2 *env) (*Node, error) {
+			e3 := e2.push()
+			e3.depth = e2.depth
+			e3.scanOff = e2.scanOff + k
+
+			return inner(e3)
+		}
 	}
 
 	id, ok := s.Lhs[0].(*ast.Ident)
@@ -1236,6 +1308,12 @@ func (t *tr) expr(e ast.Expr, en *env) (*Node, error) {
 		return Need(t.needs(c), a.Value), nil
 	}
 
+	if t.scan != nil {
+		if n, handled, err := t.scanExpr(e, en); handled {
+			return n, err
+		}
+	}
+
 	switch x := e.(type) {
 	case *ast.ParenExpr:
 		return t.expr(x.X, en)
@@ -1483,6 +1561,19 @@ func (t *tr) binary(x *ast.BinaryExpr, en *env) (*Node, error) {
 		}
 
 		return Bin(map[token.Token]string{token.ADD: "add", token.SUB: "sub"}[x.Op], retag(a, u), retag(b, u), u), nil
+	case token.SHL:
+		if a.K != KInt || b.Op != "lit" || b.Val < 0 || b.Val > 30 || (a.U != UPlain && a.U != UNum) {
+			return fail(fmt.Errorf("only a plain integer shifted by a constant is supported"))
+		}
+
+		return Bin("mul", retag(a, UPlain), Lit(1<<uint(b.Val), UPlain), UPlain), nil
+	case token.OR:
+		if a.K != KInt || b.K != KInt || a.U == UDur || b.U == UDur {
+			return fail(fmt.Errorf("plain integer operands expected"))
+		}
+
+		// bitwise or of two integers that are not negative (holds under the guards of the code translated so far)
+		return Bin("bor", retag(a, UPlain), retag(b, UPlain), UPlain), nil
 	case token.MUL:
 		if a.K != KInt || b.K != KInt {
 			return fail(fmt.Errorf("integer operands expected"))
@@ -1628,7 +1719,22 @@ func (t *tr) call(x *ast.CallExpr, en *env) (*Node, error) {
 					return t.minmax(f.Name, x, en)
 				}
 			}
-		case "int", "int8", "int16", "int32", "int64", "uint", "uint8", "uint16", "uint32", "uint64":
+		case "byte", "uint8":
+			if len(x.Args) == 1 {
+				n, err := t.expr(x.Args[0], en)
+				if err != nil {
+					return nil, err
+				}
+
+				if n.K != KInt || (n.U != UPlain && n.U != UNum) {
+					return nil, t.pkg.errorf(x.Pos(), "`%s`: an integer is expected", Text(x))
+				}
+
+				// the low eight bits (the operand is not negative in the code translated so far; `%` of Lean agrees
+				// with Go's conversion there)
+				return Bin("mod", retag(n, UPlain), Lit(256, UPlain), UPlain), nil
+			}
+		case "int", "int8", "int16", "int32", "int64", "uint", "uint16", "uint32", "uint64":
 			if len(x.Args) != 1 {
 				return nil, t.pkg.errorf(x.Pos(), "conversion with %d arguments", len(x.Args))
 			}
@@ -1649,6 +1755,44 @@ func (t *tr) call(x *ast.CallExpr, en *env) (*Node, error) {
 		fd, file, err := t.pkg.Func("", f.Name)
 		if err != nil {
 			return nil, t.pkg.errorf(x.Pos(), "call of %s: %v", f.Name, err)
+		}
+
+		if tg, ok := t.emitted["."+f.Name]; ok && tg.Site == "" && tg.Scan == "" && fd.Type.Params != nil {
+			// a function that has a definition of its own: a call of it
+			k, u, _, err := t.resultType(fd.Type, file, fd.Pos())
+			if err != nil {
+				return nil, err
+			}
+
+			n := &Node{Op: "call", Name: tg.Lean, K: k, U: u}
+			i := 0
+
+			for _, fl := range fd.Type.Params.List {
+				pts, scalar := t.goType(fl.Type, file)
+				if !scalar {
+					return nil, t.pkg.errorf(x.Pos(), "parameter type %s of %s", Text(fl.Type), f.Name)
+				}
+
+				for range fl.Names {
+					if i >= len(x.Args) {
+						return nil, t.pkg.errorf(x.Pos(), "call of %s with too few arguments", f.Name)
+					}
+
+					a, err := t.exprAs(x.Args[i], pts, en, "argument of "+f.Name)
+					if err != nil {
+						return nil, err
+					}
+
+					n.Args = append(n.Args, a)
+					i++
+				}
+			}
+
+			if i != len(x.Args) {
+				return nil, t.pkg.errorf(x.Pos(), "call of %s with too many arguments", f.Name)
+			}
+
+			return n, nil
 		}
 
 		return t.inline(fd, file, x, en, false)
